@@ -205,10 +205,16 @@ func (s *session) hook(ev string, obj, ctx, arg any) {
 	s.mu.Unlock()
 }
 
+// waitWithTimeout releases the lock for a moment and takes it again (polling). A condition
+// variable with a timer-driven Broadcast can lose the wake-up when the timer fires before Wait is
+// entered, which left the last waiting goroutine asleep for ever on a loaded machine.
 func waitWithTimeout(c *sync.Cond, d time.Duration) {
-	t := time.AfterFunc(d, c.Broadcast)
-	c.Wait()
-	t.Stop()
+	c.L.Unlock()
+	if d > 300*time.Microsecond {
+		d = 300 * time.Microsecond
+	}
+	time.Sleep(d)
+	c.L.Lock()
 }
 
 // run evaluates the shared expression from nG goroutines, each in its own context
